@@ -5,6 +5,7 @@
 #include "vx_common.h"
 /*@ENUM json_errc@*/
 static bool vx_exhausted, vx_pending, vx_source_eof, vx_source_error, vx_mon_bad; static size_t vx_last_size; static unsigned vx_reads, vx_updates, vx_parses, vx_checks; static bool vx_after_error;
+static bool vx_done;
 struct vx_chunk { size_t n; };
 static void vx_bad(bool c) { if (c) vx_mon_bad = true; }
 static bool vx_is_exhausted(void) { return vx_exhausted; }
@@ -26,10 +27,12 @@ static void vx_skip_ws(void) { vx_bad(vx_pending); if (!vx_exhausted) vx_exhaust
 static void vx_check_done(int* ec) { vx_bad(vx_pending); __CPROVER_assert(!vx_mon_bad, "[C02][C03] trailing content is checked on input the parser has been given"); vx_checks++; if (!vx_exhausted) vx_exhausted = nondet_bool();
     if (nondet_bool()) { int e = nondet_int(); __CPROVER_assume(e != 0); *ec = e; vx_after_error = true; } }
 /*@FUNC read_next@*/
+/*@FUNC cursor_read_next@*/
 /*@FUNC check_done@*/
 #ifdef VX_CBMC
 static int vx_ec;
 static void setup(void) { vx_exhausted = nondet_bool(); vx_pending = false; vx_source_eof = nondet_bool(); vx_source_error = nondet_bool(); vx_mon_bad = false; vx_reads = 0; vx_updates = 0; vx_parses = 0; vx_checks = 0; vx_after_error = false; vx_ec = 0; }
 void h_read_next(void) { setup(); read_next(&vx_ec); }
+void h_cursor_read_next(void) { setup(); cursor_read_next(&vx_ec); }
 void h_check_done(void) { setup(); check_done(&vx_ec); }
 #endif
